@@ -1,4 +1,5 @@
 import Gv.Proofs.BagRef10
+import Gv.Props.C12
 /-!
 Refinement (C01), part 11: `ReverseComplement`, `ReplaceChar`, `RemoveGapSites`, `Compress` — the
 operations whose row-level models are shared with C06, C12 and C13.
@@ -179,6 +180,216 @@ theorem ref_replaceChar {b : Bag} (h : Good b) (name : String) (site : Int) (c :
             rw [this, ha]
           · exact h.transfer_seqs (by simp only []; rw [keys_setInRow]) rfl rfl rfl rfl
               (h.rect.congr rfl rfl (lens_setInRow _ _ _ _))
+  · have ha' : b.isAlign = false := by simpa using ha
+    simp only [ha', Bool.not_false, if_true, Prod.mk.injEq, Option.some.injEq] at e ⊢
+    exact ⟨e.1, e.2, h⟩
+
+/-! ### `RemoveGapSites`: the C12 model on rectangular rows is the reference's statement -/
+
+/-- the reference's statement on plain rows of `L` columns: new rows and status -/
+def specGapSites (num den : Nat) (ends : Bool) (rows : List (String × Seq)) (L : Nat) : List (String × Seq) × String :=
+  let q : List Bool := (List.range L).map fun j =>
+    cutoffTest num den (rows.filter fun r => r.2[j]? == some GAP).length rows.length
+  let lead := (q.takeWhile id).length
+  let trail := (q.reverse.takeWhile id).length
+  let gone (i : Nat) : Bool := q.getD i false && (!ends || i < lead || i ≥ L - trail)
+  let kept := (List.range L).filter fun i => !gone i
+  let removed := (List.range L).filter gone
+  (rows.map fun r => (r.1, kept.filterMap fun j => r.2[j]?), sitesStatus lead trail kept removed)
+
+theorem spec_rmGapSites_eq (s : SBag) (num den : Nat) (ends : Bool) :
+    Spec.stepOp s (.rmGapSites num den ends) =
+      if !s.isAlign then (some s, "na") else
+      if s.rows = [] then (some s, sitesStatus 0 0 [] []) else
+      (some { s with rows := (specGapSites num den ends s.rows s.length.toNat).1 },
+       (specGapSites num den ends s.rows s.length.toNat).2) := rfl
+
+theorem siteCounts_gap (col : List Byte) (alphabet : Nat) :
+    siteCounts col [GAP] alphabet false false false false = ((col.filter fun x => x == GAP).length, col.length) := by
+  have h1 : (col.filter fun x => (containsRune [GAP] x false) != false) = col.filter fun x => x == GAP := by
+    apply List.filter_congr
+    intro x _
+    simp only [containsRune, List.any_cons, List.any_nil, Bool.false_and, Bool.or_false]
+    cases h : (GAP == x) <;> cases h' : (x == GAP) <;> simp_all
+  have h2 : (col.filter fun x => !((false && x == GAP) || (false && (x == (wildcard alphabet).1 || x == (wildcard alphabet).2)))) = col := by
+    simp
+  simp only [siteCounts]
+  rw [h1, h2]
+
+theorem map_getD_eq_filterMap (s : Seq) (ks : List Nat) (h : ∀ k ∈ ks, k < s.length) :
+    ks.map (fun j => s.getD j 0) = ks.filterMap (fun j => s[j]?) := by
+  induction ks with
+  | nil => rfl
+  | cons k t ih =>
+    have hk := h k (by simp)
+    have := ih (fun k hk => h k (List.mem_cons_of_mem _ hk))
+    rw [List.map_cons, List.filterMap_cons, this]
+    simp [List.getD_eq_getElem?_getD, List.getElem?_eq_getElem hk]
+
+/-- the qualification list of the model = the reference's, on rows that all have `L` columns -/
+theorem gapQual_eq (num den : Nat) (rows : CRows) (L : Nat) (hlen : ∀ p ∈ rows, p.2.length = L) (alphabet : Nat) :
+    ((List.range L).map fun j =>
+      cutoffTest num den (siteCounts (columnAt rows j) [GAP] alphabet false false false false).1
+        (siteCounts (columnAt rows j) [GAP] alphabet false false false false).2) =
+    (List.range L).map fun j => cutoffTest num den (rows.filter fun r => r.2[j]? == some GAP).length rows.length := by
+  apply List.map_congr_left
+  intro j hj
+  have hj' : j < L := List.mem_range.mp hj
+  rw [siteCounts_gap]
+  simp only [columnAt, List.length_map, List.filter_map, Function.comp_def]
+  congr 1
+  apply congrArg List.length
+  apply List.filter_congr
+  intro p hp
+  have hlt : j < p.2.length := by rw [hlen p hp]; exact hj'
+  simp [List.getD_eq_getElem?_getD, List.getElem?_eq_getElem hlt]
+
+theorem suffixRun_le (q : List Bool) : (q.reverse.takeWhile id).length ≤ q.length := by
+  have := (List.takeWhile_sublist (p := id) (l := q.reverse)).length_le
+  simpa using this
+
+/-- **the C12 model of `RemoveGapSites` on non-empty rectangular rows = the reference's statement** -/
+theorem removeGapSites_rows_eq (num den : Nat) (ends : Bool) (rows : CRows) (hne : rows ≠ []) (L : Nat)
+    (hlen : ∀ p ∈ rows, p.2.length = L) (alphabet : Nat) :
+    (removeCharacterSites (cutoffTest num den) rows (L : Int) alphabet [GAP] ends false false false false).rows =
+      (specGapSites num den ends rows L).1 ∧
+    (let r := removeCharacterSites (cutoffTest num den) rows (L : Int) alphabet [GAP] ends false false false false
+     sitesStatus r.first r.last r.kept r.removed) = (specGapSites num den ends rows L).2 := by
+  rw [Gv.Props.C12.removeCharacterSites_unfold, gapQual_eq num den rows L hlen]
+  generalize hq : ((List.range L).map fun j =>
+    cutoffTest num den (rows.filter fun r => r.2[j]? == some GAP).length rows.length) = q
+  have hql : q.length = L := by rw [← hq]; simp
+  have he : rows.isEmpty = false := by cases rows <;> simp_all
+  have hsuf := suffixRun_le q
+  unfold specGapSites
+  simp only [hq]
+  subst hql
+  have hp : (q.takeWhile id).length = Gv.Props.C12.prefixRun q := rfl
+  have hs : (q.reverse.takeWhile id).length = Gv.Props.C12.suffixRun q := rfl
+  rw [hs] at hsuf
+  simp only [hp, hs]
+  unfold removeSites
+  rw [Gv.Props.C12.trackers_spec]
+  simp only [he, Bool.false_eq_true, if_false]
+  generalize Gv.Props.C12.prefixRun q = lead
+  generalize Gv.Props.C12.suffixRun q = trail at hsuf
+  have hpt : ∀ i, (q.getD i false && (!ends || decide (i ≥ q.length - trail) || decide (i + 1 ≤ lead))) =
+      (q.getD i false && (!ends || decide (i < lead) || decide (i ≥ q.length - trail))) := by
+    intro i
+    have e : decide (i + 1 ≤ lead) = decide (i < lead) := by simp [Nat.lt_iff_add_one_le]
+    rw [e]
+    cases q.getD i false <;> cases ends <;> cases decide (i < lead) <;>
+      cases decide (i ≥ q.length - trail) <;> rfl
+  have hkept : (List.range q.length).filter (fun i => !(q.getD i false && (!ends || decide (i ≥ q.length - trail) || decide (i + 1 ≤ lead)))) =
+      (List.range q.length).filter (fun i => !(q.getD i false && (!ends || decide (i < lead) || decide (i ≥ q.length - trail)))) := by
+    apply List.filter_congr
+    intro i _
+    rw [hpt i]
+  have hrem : (List.range q.length).filter (fun i => (q.getD i false && (!ends || decide (i ≥ q.length - trail) || decide (i + 1 ≤ lead)))) =
+      (List.range q.length).filter (fun i => (q.getD i false && (!ends || decide (i < lead) || decide (i ≥ q.length - trail)))) := by
+    apply List.filter_congr
+    intro i _
+    rw [hpt i]
+  have hlast : q.length - (q.length - trail) = trail := by omega
+  rw [hkept, hrem, hlast]
+  refine ⟨?_, rfl⟩
+  apply List.map_congr_left
+  intro p hp
+  congr 1
+  apply map_getD_eq_filterMap
+  intro k hk
+  rw [hlen p hp]
+  exact List.mem_range.mp (List.mem_filter.mp hk).1
+
+/-- result and state of the model's `RemoveGapSites` when no row is too short -/
+def rgsRes (test : Nat → Nat → Bool) (ends : Bool) (b : Bag) : CleanResult :=
+  removeCharacterSites test (pairs b) b.length b.alphabet [GAP] ends false false false false
+def rgsState (test : Nat → Nat → Bool) (ends : Bool) (b : Bag) : Bag :=
+  { b with rows := withSeqs b.rows (rgsRes test ends b).rows, length := (rgsRes test ends b).length }
+
+theorem removeGapSites_rect_eq {b : Bag} (h : Rect b) (ha : b.isAlign = true) (test : Nat → Nat → Bool) (ends : Bool) :
+    removeGapSites test ends b = some (rgsState test ends b, rgsRes test ends b) := by
+  have hshort : ¬ (b.rows.any fun r => decide (r.seq.length < b.length.toNat)) = true := by
+    simp only [List.any_eq_true, decide_eq_true_eq, not_exists, not_and, Nat.not_lt]
+    intro r hr
+    have := h.rows_len ha r hr
+    omega
+  unfold removeGapSites; rw [if_neg hshort]; rfl
+
+theorem rgsRes_empty {b : Bag} (h : Rect b) (ha : b.isAlign = true) (hrows : b.rows = [])
+    (test : Nat → Nat → Bool) (ends : Bool) : rgsRes test ends b = unchanged [] (-1) := by
+  have hlen : b.length = -1 := h.empty_len ha hrows
+  unfold rgsRes removeCharacterSites
+  rw [if_pos (by omega), hlen]
+  simp [pairs, hrows]
+
+theorem rgsRes_nonempty {b : Bag} (h : Rect b) (ha : b.isAlign = true) (hrows : b.rows ≠ [])
+    (num den : Nat) (ends : Bool) :
+    (rgsRes (cutoffTest num den) ends b).rows = (specGapSites num den ends (pairs b) b.length.toNat).1 ∧
+    sitesStatus (rgsRes (cutoffTest num den) ends b).first (rgsRes (cutoffTest num den) ends b).last
+      (rgsRes (cutoffTest num den) ends b).kept (rgsRes (cutoffTest num den) ends b).removed =
+        (specGapSites num den ends (pairs b) b.length.toNat).2 := by
+  have hpne : pairs b ≠ [] := by simpa [pairs] using hrows
+  have hnn : 0 ≤ b.length := by
+    cases hr : b.rows with
+    | nil => exact absurd hr hrows
+    | cons y t =>
+      have := h.rows_len ha y (by simp [hr])
+      omega
+  have hL : ((b.length.toNat : Nat) : Int) = b.length := Int.toNat_of_nonneg hnn
+  have hlen : ∀ p ∈ pairs b, p.2.length = b.length.toNat := by
+    intro p hp
+    obtain ⟨r, hr, rfl⟩ := List.mem_map.mp hp
+    have := h.rows_len ha r hr
+    simp only []
+    omega
+  have key := removeGapSites_rows_eq num den ends (pairs b) hpne b.length.toNat hlen b.alphabet
+  rw [hL] at key
+  exact key
+
+theorem ref_rmGapSites {b : Bag} (h : Good b) (num den : Nat) (ends : Bool) :
+    Refines b (.rmGapSites num den ends) := by
+  intro s' st e
+  rw [spec_rmGapSites_eq] at e
+  simp only [Model.stepOp, abs_isAlign] at e ⊢
+  by_cases ha : b.isAlign = true
+  · simp only [ha, Bool.not_true, Bool.false_eq_true, if_false] at e ⊢
+    have hv := removeGapSites_rect_eq h.rect ha (cutoffTest num den) ends
+    have hgood : Good (rgsState (cutoffTest num den) ends b) := by
+      obtain ⟨k, i, n, a, al, _⟩ := removeGapSites_fields hv
+      exact h.transfer_seqs k i n a al (rect_removeGapSites _ ends h.rect _ hv)
+    have hnames : (rgsRes (cutoffTest num den) ends b).rows.map Prod.fst = b.rows.map (·.name) :=
+      (removeCharacterSites_names (cutoffTest num den) (pairs b) b.length b.alphabet [GAP] ends false false false false).trans (pairs_names b)
+    have habs : abs (rgsState (cutoffTest num den) ends b) =
+        { abs b with rows := (rgsRes (cutoffTest num den) ends b).rows } := by
+      have := pairs_withSeqs b.rows _ hnames
+      simp only [abs, pairs, rgsState]
+      rw [this]
+    simp only [hv]
+    refine ⟨?_, ?_, hgood⟩
+    · rw [habs]
+      by_cases hrows : b.rows = []
+      · have hp : (abs b).rows = [] := by simp [pairs, hrows]
+        rw [if_pos hp] at e
+        simp only [Prod.mk.injEq, Option.some.injEq] at e
+        rw [← e.1, rgsRes_empty h.rect ha hrows]
+        simp [unchanged, abs, pairs, hrows]
+      · have hp : ¬ (abs b).rows = [] := by simpa [pairs] using hrows
+        rw [if_neg hp] at e
+        simp only [Prod.mk.injEq, Option.some.injEq] at e
+        rw [← e.1, (rgsRes_nonempty h.rect ha hrows num den ends).1, h.rect.abs_length ha]
+        simp [abs, ha]
+    · by_cases hrows : b.rows = []
+      · have hp : (abs b).rows = [] := by simp [pairs, hrows]
+        rw [if_pos hp] at e
+        simp only [Prod.mk.injEq] at e
+        rw [← e.2, rgsRes_empty h.rect ha hrows]
+        rfl
+      · have hp : ¬ (abs b).rows = [] := by simpa [pairs] using hrows
+        rw [if_neg hp] at e
+        simp only [Prod.mk.injEq] at e
+        rw [← e.2, (rgsRes_nonempty h.rect ha hrows num den ends).2, h.rect.abs_length ha]
+        rfl
   · have ha' : b.isAlign = false := by simpa using ha
     simp only [ha', Bool.not_false, if_true, Prod.mk.injEq, Option.some.injEq] at e ⊢
     exact ⟨e.1, e.2, h⟩
